@@ -1288,6 +1288,17 @@ def getattr_(I, ctx, o, name, default=_MISSING):
             r = ga(ctx, name)
             if r is not _MISSING:
                 return r
+        if str(o.tag).startswith("array:") and o.e is not None and name in ("shape", "dtype", "flags", "size"):
+            # an array whose content is opaque: its shape / dtype / flags are unspecified functions of the array
+            srt = o.e.sort()
+            if name in ("shape", "size"):
+                f = z3.Function("LEN_OF_" + srt.name(), srt, z3.IntSort())
+                ctx.assume(f(o.e) >= 0)
+                return TupleVal([wrap(f(o.e))]) if name == "shape" else wrap(f(o.e))
+            if name == "dtype":
+                f = z3.Function("DTYPE_OF_" + srt.name(), srt, z3.IntSort())
+                return wrap(f(o.e))
+            return Opaque(None, "array-flags", {"fields": {"writeable": wrap(z3.Bool(ctx.fresh_name("writeable")))}})
     b = PB.builtin_method(I, ctx, o, name)
     if b is not None:
         return b
